@@ -13,6 +13,13 @@ import (
 // ---------------------------------------------------------------- instructions
 
 func (g *Gen) safety(st *State, kind string, pos token.Pos, goal string) {
+	if g.c != nil && g.c.Opt("safety") == "assumed" {
+		// panic-freedom of this function is not claimed: its contract is about what happens on the runs
+		// that do not panic (partial correctness); listed as an assumption in the evidence
+		g.assume(st, goal)
+		g.trustedUsed["run-time panic freedom of "+g.short+" is NOT claimed: its safety conditions (nil, bounds, ...) are assumed, the contract speaks about runs that do not panic"] = true
+		return
+	}
 	g.oblige(st, "safety", fmt.Sprintf("%s#%d", kind, g.ord(kind)), g.line(pos), goal)
 }
 
@@ -90,6 +97,17 @@ func (g *Gen) step(fn *ssa.Function, st *State, in ssa.Instruction) {
 			}
 		case p.Kind == "elemptr" && p.Elem.Ref != "":
 			g.frameElemStore(st, p.Elem.Ref, x.Pos())
+			if v.T == "" && st.fresh[p.Elem.Ref] {
+				// a slice or struct stored into an element of an array this function allocated (variadic
+				// arguments f(xs...) of slice type): elements of that shape are not modelled; the element
+				// becomes an unconstrained value
+				g.unmodelled["non-scalar value stored into an element of a local array (element unconstrained)"] = true
+				g.setHs(st, p.Elem.Ref, fmt.Sprintf("(store %s %s %s)", g.arr(st, *p.Elem), p.Idx, g.newSym("elem", "Int")))
+				break
+			}
+			if v.T == "" {
+				panic(oos(fmt.Sprintf("store of a %s value without scalar form into an array element at line %d", v.Kind, g.line(x.Pos()))))
+			}
 			na := fmt.Sprintf("(store %s %s %s)", g.arr(st, *p.Elem), p.Idx, v.T)
 			g.setHs(st, p.Elem.Ref, na)
 		case p.Kind == "elemptr" && p.Elem.Cell != nil: // element of a value-form array held in a cell
@@ -119,6 +137,11 @@ func (g *Gen) step(fn *ssa.Function, st *State, in ssa.Instruction) {
 			st.heap[p.Idx] = g.def("H", g.heapSort[p.Idx], fmt.Sprintf("(store %s %s %s)", g.heapGet(st, p.Idx), p.T, vt))
 		case p.Kind == "ptr" && p.Cell != nil:
 			st.cells[p.Cell] = v
+		case p.Kind == "opaque" && p.T != "" && (v.Kind == "int" || v.Kind == "bool") && isScalarCell(x.Val.Type()):
+			key := derefKey(g, x.Val.Type())
+			g.safety(st, "nil", x.Pos(), fmt.Sprintf("(not (= %s 0))", p.T))
+			g.frameFieldStore(st, key, nil, x.Pos())
+			st.heap[key] = g.def("H", g.heapSort[key], fmt.Sprintf("(store %s %s %s)", g.heapGet(st, key), p.T, v.T))
 		case p.Kind == "globptr":
 			st.globs[p.T] = v
 		case p.Kind == "unmodelledptr":
@@ -300,6 +323,25 @@ func (g *Gen) step(fn *ssa.Function, st *State, in ssa.Instruction) {
 			g.regs[x] = Val{Kind: "unmodelledptr", Ty: x.Type()}
 			break
 		}
+		if base.Kind == "heapfield" {
+			// field of a struct that is embedded by value in a heap object (x.Details.SubFilter): its own
+			// per-field array, keyed by the path, indexed by the enclosing object
+			if pt, ok := x.X.Type().Underlying().(*types.Pointer); ok {
+				if stt, ok := pt.Elem().Underlying().(*types.Struct); ok {
+					f := stt.Field(x.Field)
+					key := base.Idx + "." + f.Name()
+					if _, ok := g.heapSort[key]; !ok {
+						srt := "(Array Int Int)"
+						if isBoolType(f.Type()) {
+							srt = "(Array Int Bool)"
+						}
+						g.heapSort[key] = srt
+					}
+					g.regs[x] = Val{Kind: "heapfield", T: base.T, Idx: key, Ty: x.Type()}
+					break
+				}
+			}
+		}
 		panic(oos("FieldAddr on " + base.Kind))
 	case *ssa.Field:
 		sv := g.val(st, x.X)
@@ -348,6 +390,11 @@ func (g *Gen) load(st *State, x *ssa.UnOp, a Val) Val {
 		return g.globalVal(st, a.T, x.Type())
 	case a.Kind == "unmodelledptr":
 		return g.symFor(x.Type(), "unmodelled", st)
+	case a.Kind == "opaque" && a.T != "" && isScalarCell(x.Type()):
+		// *p for a pointer to an integer or bool: one heap array per pointee type, indexed by the pointer
+		key := derefKey(g, x.Type())
+		g.safety(st, "nil", x.Pos(), fmt.Sprintf("(not (= %s 0))", a.T))
+		return g.heapRead(st, key, a.T, x.Type())
 	case a.Kind == "opaque" || a.Kind == "err":
 		if _, isStruct := x.Type().Underlying().(*types.Struct); isStruct && a.T != "" {
 			return Val{Kind: "opaque", T: a.T, Ty: x.Type()} // struct loaded through a pointer keeps the pointer's identity
@@ -734,6 +781,13 @@ func (g *Gen) binop(st *State, x *ssa.BinOp) Val {
 	if a.Kind == "str" && x.Op == token.ADD {
 		return g.concat(st, a, b)
 	}
+	if g.opaqueStr && x.Op == token.ADD && a.Kind == "int" && isStringType(x.X.Type()) {
+		// opaque strings: a + b is the term strcat(a, b); only its length is known
+		sl := g.uf("strlen", 1, "Int")
+		r := fmt.Sprintf("(%s %s %s)", g.uf("strcat", 2, "Int"), a.T, b.T)
+		g.assume(st, fmt.Sprintf("(and (= (%s %s) (+ (%s %s) (%s %s))) (<= 0 (%s %s)) (<= 0 (%s %s)))", sl, r, sl, a.T, sl, b.T, sl, a.T, sl, b.T))
+		return Val{T: r, Kind: "int"}
+	}
 	if a.Kind == "opaque" && isFloat(x.X.Type()) {
 		if x.Op == token.EQL || x.Op == token.NEQ || x.Op == token.LSS || x.Op == token.LEQ || x.Op == token.GTR || x.Op == token.GEQ {
 			return Val{T: g.newSym("fcmp", "Bool"), Kind: "bool"}
@@ -994,4 +1048,27 @@ func hasLoop(f *ssa.Function) bool {
 		}
 	}
 	return false
+}
+
+// isScalarCell: integer and bool pointees get a heap array of their own ("*int64", "*bool", ...).
+func isScalarCell(t types.Type) bool {
+	if _, _, ok := rangeOf(t); ok {
+		return true
+	}
+	return isBoolType(t)
+}
+
+func derefKey(g *Gen, t types.Type) string {
+	key := "*" + types.Unalias(t).String()
+	if i := strings.LastIndex(key, "/"); i >= 0 {
+		key = "*" + key[i+1:]
+	}
+	if _, ok := g.heapSort[key]; !ok {
+		srt := "(Array Int Int)"
+		if isBoolType(t) {
+			srt = "(Array Int Bool)"
+		}
+		g.heapSort[key] = srt
+	}
+	return key
 }
